@@ -590,6 +590,7 @@ class World:
         if op.get("requires_grad"):
             x.requires_grad_(True)
         before = storage_bytes(base)
+        shape0 = tuple(x.shape)
         rec["family"] = inst.family
         rec["recipe"] = inst.recipe
         rec["iid"] = inst.iid
@@ -610,7 +611,7 @@ class World:
         if storage_bytes(base) != before:
             self.violation("I1-arg-mutated", rec, "input tensor storage changed by the call")
         elif bool(x.requires_grad) != bool(op.get("requires_grad")) or x.grad is not None \
-                or tuple(x.shape) != tuple(spec["shape"]):
+                or tuple(x.shape) != shape0:
             self.violation("I1-arg-mutated", rec, "input tensor metadata (requires_grad / .grad / "
                            "shape) changed by the call")
         self.live_args.append((rec, [(base, before)], None))
@@ -801,23 +802,45 @@ class World:
         import inspect
         coeffs = self.L.coeffs
         known = {"biort", "level1", "qshift", "pywt_coeffs", "load", "resource_stream"}
-        funcs = sorted(n for n, f in vars(coeffs).items()
-                       if inspect.isfunction(f) and f.__module__ == coeffs.__name__
-                       and not n.startswith("_") and n not in known)
-        if not funcs:
+        # new public functions, and known loaders that grew new parameters
+        base_sig = {"biort": ["name"], "level1": ["name", "compact"], "qshift": ["name"]}
+        cands = []
+        for n, f in sorted(vars(coeffs).items()):
+            if not inspect.isfunction(f) or f.__module__ != coeffs.__name__ or n.startswith("_"):
+                continue
+            try:
+                params = list(inspect.signature(f).parameters.values())
+            except (TypeError, ValueError):
+                continue
+            if n in base_sig:
+                new = [q for q in params if q.name not in base_sig[n]]
+                if new:
+                    cands.append((n, new))
+            elif n not in known:
+                cands.append((n, params[1:]))
+        if not cands:
             return self._skip(rec, "no-extra-api")
-        fn = getattr(coeffs, funcs[op["index"] % len(funcs)])
+        fname, params = cands[op["index"] % len(cands)]
+        fn = getattr(coeffs, fname)
         kwargs = {}
-        try:
-            params = list(inspect.signature(fn).parameters.values())
-        except (TypeError, ValueError):
-            params = []
         bit = 0
-        for prm in params[1:]:
+        for prm in params:
+            if prm.kind not in (prm.POSITIONAL_OR_KEYWORD, prm.KEYWORD_ONLY):
+                continue
+            on = (op["flip"] >> (bit % 3)) & 1
+            bit += 1
             if isinstance(prm.default, bool):
-                if (op["flip"] >> bit) & 1:
+                if on:
                     kwargs[prm.name] = not prm.default
-                bit += 1
+            elif "dtype" in prm.name.lower():
+                if on or fname in base_sig:
+                    kwargs[prm.name] = "float32"
+            elif prm.default is None or prm.default is inspect.Parameter.empty:
+                if on:
+                    kwargs[prm.name] = [True, "float32", 1][op["flip"] % 3]
+            elif isinstance(prm.default, (int, float)):
+                if on:
+                    kwargs[prm.name] = prm.default + 1
         status, val = cl.guarded(lambda: fn(op["name"], **kwargs))
         self._finish(cl, rec, status, val)
         self.probe("extra_api_calls")
